@@ -1526,7 +1526,11 @@ func SelectStrategy(n *nfa.NFA, re *syntax.Regexp, literals *literal.Seq, config
 	isEndAnchored := re != nil && nfa.IsPatternEndAnchored(re)
 	hasStartAnchor := re != nil && nfa.IsPatternStartAnchored(re)
 
-	if re != nil && config.EnableDFA && isEndAnchored && !isStartAnchored && !hasStartAnchor {
+	// Word boundaries and line anchors are look-around assertions: the reverse NFA
+	// turns them into epsilon transitions, so `\b$` would match wherever `$` does.
+	hasOtherLook := re != nil && (hasWordBoundary(re) || hasMultilineLineAnchor(re))
+
+	if re != nil && config.EnableDFA && isEndAnchored && !isStartAnchored && !hasStartAnchor && !hasOtherLook {
 		// Perfect candidate for reverse search
 		// Example: "pattern.*suffix$" on large haystack
 		// Forward: O(n*m) tries, Reverse: O(m) one try
